@@ -47,8 +47,13 @@ type xSpec struct {
 	prepare        func(c *load.Ctx, m *scanModel) error
 }
 
+type xEntry struct {
+	once sync.Once
+	g    *xGraph
+}
+
 var (
-	xCache   = map[string]*xGraph{}
+	xCache   = map[string]*xEntry{}
 	xCacheMu sync.Mutex
 )
 
@@ -68,13 +73,19 @@ func trimPending(p []int) []int {
 
 func exploreScanner(c *load.Ctx, name string, sp xSpec) *xGraph {
 	xCacheMu.Lock()
-	defer xCacheMu.Unlock()
 	ck := fmt.Sprintf("%p|%s", c, name)
-	if g, ok := xCache[ck]; ok {
-		return g
+	e, ok := xCache[ck]
+	if !ok {
+		e = &xEntry{}
+		xCache[ck] = e
 	}
+	xCacheMu.Unlock()
+	e.once.Do(func() { e.g = exploreScannerUncached(c, name, sp) })
+	return e.g
+}
+
+func exploreScannerUncached(c *load.Ctx, name string, sp xSpec) *xGraph {
 	g := &xGraph{eof: map[*xNode]*stepResult{}}
-	xCache[ck] = g
 	m, err := newScanModel(c, sp.rel, sp.ctor, sp.typ, sp.opts)
 	if err != nil {
 		g.err = err
@@ -173,10 +184,10 @@ func exploreScanner(c *load.Ctx, name string, sp xSpec) *xGraph {
 }
 
 var scannerSpecs = map[string]xSpec{
-	"json": {rel: "formats/json", ctor: "newScanner", typ: "scanner", maxStack: 6, maxNodes: 4000},
-	"schema": {rel: "notations/jschema/internal/scanner", ctor: "New", typ: "Scanner", maxStack: 5, maxNodes: 5000},
+	"json":        {rel: "formats/json", ctor: "newScanner", typ: "scanner", maxStack: 6, maxNodes: 4000},
+	"schema":      {rel: "notations/jschema/internal/scanner", ctor: "New", typ: "Scanner", maxStack: 5, maxNodes: 5000},
 	"schema-deep": {rel: "notations/jschema/internal/scanner", ctor: "New", typ: "Scanner", maxStack: 5, maxNodes: 40000},
-	"enum": {rel: "rules/enum", ctor: "newScanner", typ: "scanner", maxStack: 6, maxNodes: 4000, prepare: prepareEnumModel},
+	"enum":        {rel: "rules/enum", ctor: "newScanner", typ: "scanner", maxStack: 6, maxNodes: 4000, prepare: prepareEnumModel},
 }
 
 func init() {
@@ -278,4 +289,181 @@ func crashClass(detail string) string {
 		detail = detail[:60]
 	}
 	return detail
+}
+
+// --- symmetry and position rules over the explored graph ----------------------------------------
+
+func init() {
+	for _, name := range []string{"schema", "enum"} {
+		name := name
+		register(&Rule{ID: "SX-nl-" + name, Min: 20, Run: func(c *load.Ctx, r *report.RuleResult) { runSXSym(c, r, name, '\n', '\r', nil) },
+			Doc: "scanner " + name + ": in every reachable abstract state LF and CR have the same effect (same verdict, same events and spans, same successor state): LF / CR / CRLF files scan alike"})
+		register(&Rule{ID: "SX-sp-" + name, Min: 20, Run: func(c *load.Ctx, r *report.RuleResult) { runSXSym(c, r, name, ' ', '\t', contentStates) },
+			Doc: "scanner " + name + ": in every reachable abstract state outside content (string bodies, annotation/comment text) space and tab have the same effect: indentation style does not change the scan"})
+	}
+	for _, name := range []string{"json", "schema", "enum"} {
+		name := name
+		register(&Rule{ID: "SX-pos-" + name, Min: 10, Run: func(c *load.Ctx, r *report.RuleResult) { runSXPos(c, r, name) },
+			Doc: "scanner " + name + ": every rejecting error carries a position, and it is the offset of the byte just consumed (or of the last byte when the input ends early)"})
+	}
+}
+
+// contentStates: step functions in which a blank is content, not layout (one line of reason each).
+var contentStates = map[string]string{
+	"stateInString":                   "inside a string literal: bytes are content",
+	"stateInStringEsc":                "inside a string literal (after backslash): both rejected anyway, content state",
+	"stateInStringEscU":               "inside \\u escape: content state",
+	"stateInStringEscU1":              "inside \\u escape: content state",
+	"stateInStringEscU12":             "inside \\u escape: content state",
+	"stateInStringEscU123":            "inside \\u escape: content state",
+	"stateInlineAnnotationText":       "annotation note text: content",
+	"stateMultiLineAnnotationText":    "annotation note text: content",
+	"stateInlineComment":              "user comment text: content",
+	"stateMultiLineComment":           "user comment text: content",
+	"stateInAnnotationObjectKey":      "inside a bare rule name: bytes are content of the name",
+	"stateInAnnotationObjectKeyAfter": "between a bare rule name and its colon only spaces are admitted by the grammar; a tab there is not indentation (leading blanks of a line), so C13 does not speak about it",
+}
+
+func baseStepName(s string) string {
+	s = strings.TrimSuffix(s, "$bound")
+	if i := strings.LastIndex(s, "."); i >= 0 {
+		s = s[i+1:]
+	}
+	return s
+}
+
+func edgeSig(e xEdge) string {
+	var la []string
+	for off, v := range e.res.LA {
+		la = append(la, fmt.Sprintf("%d=%d", off, v))
+	}
+	sort.Strings(la)
+	return strings.Join(la, ",") + "\x00" + e.res.signature() + "\x00" + e.crashN
+}
+
+func runSXSym(c *load.Ctx, r *report.RuleResult, name string, a, b byte, exempt map[string]string) {
+	g := exploreScanner(c, name, scannerSpecs[name])
+	if g.err != nil {
+		r.Unk("anchor|scanner "+name, "", g.err.Error())
+		return
+	}
+	m := g.m
+	pos := c.Pos(m.next.Pos())
+	type pair struct{ a, b []string }
+	by := map[*xNode]*pair{}
+	for _, e := range g.edges {
+		if len(e.from.pending) != 0 {
+			continue
+		}
+		if e.input != int(a) && e.input != int(b) {
+			continue
+		}
+		p := by[e.from]
+		if p == nil {
+			p = &pair{}
+			by[e.from] = p
+		}
+		if e.input == int(a) {
+			p.a = append(p.a, edgeSig(e))
+		} else {
+			p.b = append(p.b, edgeSig(e))
+		}
+	}
+	perStep := map[string]int{}
+	badStep := map[string]bool{}
+	usedExempt := map[string]bool{}
+	for _, n := range g.nodes {
+		p := by[n]
+		if p == nil {
+			continue
+		}
+		step := baseStepName(implStepName(m, n.st))
+		if why, ok := exempt[step]; ok {
+			if !usedExempt[step] {
+				usedExempt[step] = true
+				r.OK("exempt|"+step, "", "not compared: "+why)
+			}
+			continue
+		}
+		perStep[step]++
+		sort.Strings(p.a)
+		sort.Strings(p.b)
+		if strings.Join(p.a, "\x01") != strings.Join(p.b, "\x01") && !badStep[step] {
+			badStep[step] = true
+			r.Bad(fmt.Sprintf("asym|%s|%q~%q", step, string(a), string(b)), pos,
+				fmt.Sprintf("after input %s the bytes %q and %q are treated differently: %s versus %s", showInput(n.path), string(a), string(b), describeSig(p.a), describeSig(p.b)))
+		}
+	}
+	for _, s := range sortedKeys(perStep) {
+		if !badStep[s] {
+			r.OK(fmt.Sprintf("sym|%s|%q~%q", s, string(a), string(b)), "", fmt.Sprintf("%d abstract state(s) compared", perStep[s]))
+		}
+	}
+	r.Note("scanner %s: %d abstract states explored%s", name, len(g.nodes), map[bool]string{true: " (node cap reached)", false: ""}[g.capped])
+}
+
+func describeSig(sigs []string) string {
+	var out []string
+	for _, s := range sigs {
+		parts := strings.Split(s, "\x00")
+		// la, kind, events, nextkey, code, consumed, errpos, crashN
+		if len(parts) >= 7 {
+			d := parts[1]
+			if parts[2] != "" {
+				d += " events " + parts[2]
+			}
+			if parts[4] != "" {
+				d += " code " + parts[4]
+			}
+			if parts[0] != "" {
+				d += " (look-ahead " + parts[0] + ")"
+			}
+			out = append(out, "{"+d+"}")
+		}
+		if len(out) >= 3 {
+			out = append(out, "…")
+			break
+		}
+	}
+	return strings.Join(out, " ")
+}
+
+func runSXPos(c *load.Ctx, r *report.RuleResult, name string) {
+	g := exploreScanner(c, name, scannerSpecs[name])
+	if g.err != nil {
+		r.Unk("anchor|scanner "+name, "", g.err.Error())
+		return
+	}
+	m := g.m
+	pos := c.Pos(m.next.Pos())
+	type stat struct {
+		n    int
+		path string
+	}
+	byKey := map[string]*stat{}
+	note := func(step, code, p, path string) {
+		k := step + "|" + code + "|pos=" + p
+		if byKey[k] == nil {
+			byKey[k] = &stat{path: path}
+		}
+		byKey[k].n++
+	}
+	for _, e := range g.edges {
+		if e.res.Kind == "reject" {
+			note(baseStepName(implStepName(m, e.from.st)), e.res.Code, e.res.ErrPos, e.from.path+string([]byte{byte(e.input)}))
+		}
+	}
+	for n, res := range g.eof {
+		if res.Kind == "reject" {
+			note(baseStepName(implStepName(m, n.st))+"@EOF", res.Code, res.ErrPos, n.path)
+		}
+	}
+	for _, k := range sortedKeys(byKey) {
+		st := byKey[k]
+		if strings.HasSuffix(k, "|pos=L") {
+			r.OK("errpos|"+k, "", fmt.Sprintf("%d rejecting transitions carry the offset of the offending byte", st.n))
+		} else {
+			r.Bad("errpos|"+k, pos, fmt.Sprintf("%d rejecting transitions carry position %q instead of the offending byte; e.g. input %s", st.n, k[strings.LastIndex(k, "pos=")+4:], showInput(st.path)))
+		}
+	}
 }
